@@ -169,8 +169,11 @@ def compare_lex(res, st, tag, cases, impl, model, sample_every, findings, pendin
                              model_syntax_lexemes=[printable(x) for x in unhex_list(mslh)])))
                 continue
             # the reference splitter against each model where the (partly proved) step lemmas apply
-            if not mflags and 13 not in raw and spec:
-                if mlc == "1" and "B" not in mknown:
+            if not mflags and spec:
+                if 13 in raw and spec.startswith("+"):
+                    # a line break inside a lexeme reads as LF (Agree.norm_eol)
+                    spec = "+" + ",".join(x.replace(b"\r\n", b"\n").replace(b"\r", b"\n").hex() for x in unhex_list(spec[1:]))
+                if mlc == "1" and "B" not in mknown and "D" not in mknown:
                     st.spec_checked += 1
                     if spec != "+" + mllh:
                         pending["n_spec"] += 1
@@ -326,12 +329,42 @@ def main(tier, replay=None):
                            "log": out[-1500:], "replay_cmd": "./check C18 --replay <this file>"})
         return rc
 
+    CHUNK = 20000
+
     def lex_stream(tag, mode, n, sample_every):
         cases, impl, model = (os.path.join(d, "lex_%s.%s" % (tag, x)) for x in ("cases", "impl", "model"))
         for p in (cases, impl, model):
             if os.path.exists(p):
                 os.remove(p)
-        run_harness(["lex", mode, str(seed()), str(n), cases, impl], cases)
+        if mode in ("random", "slices") and n > CHUNK:
+            # vhdl_syntax interns every token text in a process-global Vec with a linear lookup
+            # (token_interning.rs): a long-running process becomes quadratic.  Generated streams are
+            # therefore produced by several harness processes of CHUNK cases each (seed -> seed*1000+i),
+            # up to 8 at a time, and concatenated in order.
+            import concurrent.futures
+            parts = []
+            k = 0
+            left = n
+            while left > 0:
+                m = min(CHUNK, left)
+                parts.append((k, m, cases + ".%d" % k, impl + ".%d" % k))
+                left -= m
+                k += 1
+
+            def one(part):
+                k, m, pc, pi = part
+                return run_harness(["lex", mode, str(seed() * 1000 + k), str(m), pc, pi], pc)
+            with concurrent.futures.ThreadPoolExecutor(max_workers=8) as ex:
+                list(ex.map(one, parts))
+            with open(cases, "wb") as fc, open(impl, "wb") as fi:
+                for k, m, pc, pi in parts:
+                    for src, dst in ((pc, fc), (pi, fi)):
+                        if os.path.exists(src):
+                            with open(src, "rb") as f:
+                                dst.write(f.read())
+                            os.remove(src)
+        else:
+            run_harness(["lex", mode, str(seed()), str(n), cases, impl], cases)
         if not os.path.exists(cases) or not os.path.exists(impl):
             return []
         with open(cases) as fin, open(model, "w") as fout:
